@@ -92,7 +92,7 @@ type C14Case struct {
 func genC14(seed uint64, r *Rng, idx, vecs int) *C14Case {
 	graph := idx / vecs
 	gr := NewRng(seed, strSeed("C14-graph"), uint64(graph))
-	cs := &C14Case{Cfg: genCfg(gr.Fork(71), 0)}
+	cs := &C14Case{Cfg: genCfg(gr.Fork(71), 0.15)}
 	cs.Cfg.apply() // Source() during generation must already use this case's delimiters
 	depth := gr.Range(1, 3)
 	dirs := []string{}
@@ -134,7 +134,8 @@ func genC14(seed uint64, r *Rng, idx, vecs int) *C14Case {
 			quote("./" + f.Rel), quote("x/../" + f.Rel),
 			quote(stem) + ` | append: ".html"`, `'` + stem + `' | append: '.html'`, quote("zz"+f.Rel) + ` | remove: "zz"`,
 			quote("zz"+f.Rel) + ` | replace: "zz", ""`, quote(f.Rel) + ` | slice: 0, 99`,
-			fmt.Sprintf("incp%d", i), fmt.Sprintf("incd%d", i), quote("y//../" + f.Rel), fmt.Sprintf("pg%d.Sidebar", i)}
+			fmt.Sprintf("incp%d", i), fmt.Sprintf("incd%d", i), quote("y//../" + f.Rel), fmt.Sprintf("pg%d.Sidebar", i),
+			fmt.Sprintf("inc%d | pathof", i), quote(f.Rel) + " | pathof"}
 	}
 	argsFor := func(i int) []string {
 		as := argsFor0(i)
@@ -450,8 +451,12 @@ func c14Setup(cs *C14Case, scratch string, tag string) (*c14Run, Res) {
 		}
 		return string(out), nil
 	})
-	// another engine of the same process registers OTHER source for the same paths
+	x.eng.RegisterFilter("pathof", func(s string) string { return s })
+	// another engine of the same process registers OTHER source for the same paths and
+	// defines the same filter name differently
 	x.other = NewEngine(cs.Cfg)
+	registerSnap(x.other)
+	x.other.RegisterFilter("pathof", func(s string) string { return "other-engine/" + s })
 	x.b = cs.Env.Build(nil)
 	type placed struct {
 		f *C14File
@@ -517,6 +522,14 @@ func c14Setup(cs *C14Case, scratch string, tag string) (*c14Run, Res) {
 	}
 	includeMode = 0
 	src := Source(cs.Root)
+	// ... and the other engine renders this root first (whatever the process remembers per
+	// argument text then comes from the other engine)
+	guard(func() Res {
+		if t, err := x.other.ParseTemplateLocation([]byte(src), x.rootAbs, 1); err == nil {
+			t.Render(x.b)
+		}
+		return Res{}
+	})
 	p := x.parse(src)
 	if p.T == nil {
 		// does the same root parse once its include tags are taken out? Then an
